@@ -264,7 +264,7 @@ def unesc(s):
 def _chunks(items, k):
     k = max(1, min(k, len(items)))
     n = (len(items) + k - 1) // k
-    return [items[i:i + n] for i in range(0, len(items), n)]
+    return [items[i:i + n] for i in range(0, len(items), max(n, 1))]
 
 
 def run_harness(stream, cases, workdir, jobs=NPROC, timeout=900, binary=None, extra=()):
